@@ -67,20 +67,19 @@ def cache_put(name, key, val):
     with open(tmp, "wb") as f:
         pickle.dump(val, f)
     os.replace(tmp, p)
-    # keep the cache small: drop entries older than a day
-    now = time.time()
-    for fn in os.listdir(CACHE):
-        fp = os.path.join(CACHE, fn)
-        try:
-            if now - os.path.getmtime(fp) > 86400:
-                os.remove(fp)
-        except OSError:
-            pass
+    # keep the cache small: the six most recent entries only
+    try:
+        files = sorted((os.path.join(CACHE, fn) for fn in os.listdir(CACHE) if fn.endswith(".pkl")),
+                       key=os.path.getmtime, reverse=True)
+        for fp in files[6:]:
+            os.remove(fp)
+    except OSError:
+        pass
 
 
 PLAN = {
-    "quick": [("equilibrium", 14), ("mixed", 12), ("rebuild", 8), ("rebuild_finish", 14), ("recover", 6), ("shortage", 8), ("aftermath", 6), ("exhaust", 8)],
-    "thorough": [("equilibrium", 60), ("mixed", 90), ("rebuild", 60), ("rebuild_finish", 60), ("recover", 40), ("shortage", 60), ("aftermath", 40), ("exhaust", 60)],
+    "quick": [("equilibrium", 14), ("mixed", 12), ("rebuild", 8), ("rebuild_finish", 14), ("recover", 6), ("shortage", 8), ("aftermath", 6), ("exhaust", 8), ("nonreal", 6)],
+    "thorough": [("equilibrium", 60), ("mixed", 90), ("rebuild", 60), ("rebuild_finish", 60), ("recover", 40), ("shortage", 60), ("aftermath", 40), ("exhaust", 60), ("nonreal", 40)],
 }
 MAX_STEPS_CHECKED = {"quick": 6, "thorough": 10}
 
